@@ -246,7 +246,7 @@ func runC02(e *env, n int) {
 		c.nontriv = true
 		c.flush(e, "empty blob from an empty cache")
 	}
-	for i := 0; len(e.cases) < n; i++ {
+	for i := r.Intn(84); len(e.cases) < n; i++ {
 		f := e.fx[i%len(e.fx)]
 		if i%7 == 5 {
 			treeCase(e, f)
